@@ -28,9 +28,20 @@ def stop_vs_objective(rng):
     seq = "".join(rng.choice("ATGC" if rng.random() < 0.5 else "GC") for _ in range(n))
     m = rng.randint(1, n // 3)
     a = rng.randint(0, n - 3 * m)
-    cons = [dict(kind="stop", location=[a, a + 3 * m, rng.choice([1, -1, -1])], table=rng.choice(["Standard", "Bacterial"]))]
+    table = rng.choice(["Standard", "Bacterial", "Vertebrate Mitochondrial", "Vertebrate Mitochondrial", "Ciliate Nuclear"])
+    st = rng.choice([1, -1, -1])
+    cons = [dict(kind="stop", location=[a, a + 3 * m, st], table=table)]
     w = min(rng.choice([3, 4, 5, 8]), n)
     objs = [dict(kind="gc_obj", target=rng.choice([0.0, 0.1, 0.25]), window=w, boost=rng.choice([1, 2]))]
+    if rng.random() < 0.5:
+        # an objective that asks, in frame, for codons that are stops in this table
+        from Bio.Data import CodonTable
+        stops = CodonTable.unambiguous_dna_by_name[table].stop_codons
+        j = rng.randint(0, m - 1)
+        codon = rng.choice(stops)
+        lo = a + 3 * j if st == 1 else a + 3 * (m - 1 - j)
+        target = codon if st == 1 else "".join({"A": "T", "T": "A", "G": "C", "C": "G"}[c] for c in reversed(codon))
+        objs = [dict(kind="sequence_obj", sequence=target, location=[lo, lo + 3, 1], boost=rng.choice([1, 2]))]
     if rng.random() < 0.4:
         objs.append(dict(kind="change_obj", location=None, amount_percent=None, boost=rng.choice([0.5, 1])))
     return dict(sequence=seq, constraints=cons, objectives=objs, settings=problems.rand_settings(rng), np_seed=rng.randint(0, 10 ** 6))
